@@ -771,6 +771,24 @@ Section Pipeline.
     - destruct (if cd then None else cut_lookup K s q); [discriminate|].
       destruct (failure_lookup K K_eqb H salt_fq salt_fz s q cd None); discriminate.
   Qed.
+  (* the same inside a request tree: whatever the outer client sent (CD, ECS), a resolver-internal hit comes from
+     the partition the sub-query itself asks in *)
+  Lemma store_get_tree_hit_sound (s : store K) q cd bypass id :
+    store_get_tree K K_eqb H salt_fq salt_fz s q cd bypass = OHit id ->
+    exists e, e_id e = id /\ same_question e (q_name q) (q_type q) (q_class q) cd /\ e_scope e = None.
+  Proof.
+    unfold store_get_tree. destruct (store_lookup K K_eqb H s q cd) as [e|] eqn:Es.
+    - intros Ho. inversion Ho; subst. exists e. split; [reflexivity|]. apply (store_lookup_sound K K_eqb H) in Es. exact Es.
+    - destruct (if cd || bypass then None else cut_lookup K s q); [discriminate|].
+      destruct (failure_lookup K K_eqb H salt_fq salt_fz s q cd None); discriminate.
+  Qed.
+  Lemma store_get_tree_cut_only_plain (s : store K) q cd bypass id :
+    store_get_tree K K_eqb H salt_fq salt_fz s q cd bypass = OCut id -> cd = false /\ bypass = false.
+  Proof.
+    unfold store_get_tree. destruct (store_lookup K K_eqb H s q cd); [discriminate|].
+    destruct cd, bypass; cbn [orb]; try (destruct (failure_lookup K K_eqb H salt_fq salt_fz s q _ None); discriminate).
+    intros _. split; reflexivity.
+  Qed.
 End Pipeline.
 
 (* ------------------------------------------------------------------ *)
